@@ -186,6 +186,30 @@ def _any_sym(a):
 MM = collections.namedtuple("minmax", "values indices")
 
 
+def _dense_extent(x):
+    """(low, high, dense) byte extent of a view; dense = torch's `is_non_overlapping_and_dense` (size-1 dims ignored)"""
+    low = high = x.__array_interface__["data"][0]
+    for n, st in zip(x.shape, x.strides):
+        if n > 1:
+            if st < 0:
+                low += (n - 1) * st
+            else:
+                high += (n - 1) * st
+    high += x.itemsize
+    return low, high, (high - low) == x.size * x.itemsize
+
+
+def _check_partial_overlap(dst, src):
+    """torch's copy_/index_put_ contract (`assert_no_partial_overlap`): when destination and source are both dense
+    views of the same storage whose byte ranges overlap without being identical, the real library raises."""
+    if not isinstance(dst, np.ndarray) or dst.size <= 1 or not np.may_share_memory(dst, src):
+        return
+    l1, h1, d1 = _dense_extent(dst)
+    l2, h2, d2 = _dense_extent(src)
+    if d1 and d2 and (l1, h1) != (l2, h2) and l1 < h2 and l2 < h1:
+        raise RuntimeError("unsupported operation: some elements of the input tensor and the written-to tensor refer to a single memory location. Please clone() the tensor before performing the operation.")
+
+
 class Tensor:
     __array_priority__ = 1000
 
@@ -338,7 +362,9 @@ class Tensor:
         if is_sym(x):
             if z3.is_bool(x):
                 return explore.EXP.branch(x)
-            raise Unsupported("item() on a symbolic number")
+            if z3.is_int(x):
+                return explore.EXP.concretize_any(x)  # data-dependent python int: fork over every feasible value
+            raise Unsupported("item() on a symbolic real number")
         if isinstance(x, XR):
             raise Unsupported("item() on a symbolic extended real")
         return x
@@ -928,6 +954,8 @@ class Tensor:
                 return
         kind, idx2 = _prep_index(self, idx)
         if kind == "basic":
+            if isinstance(v, np.ndarray) and v.size > 1:
+                _check_partial_overlap(self.a[idx2], v)
             self.a[idx2] = v
             return
         _sym_index_set(self.a, idx2, v)
@@ -1510,8 +1538,10 @@ def from_numpy(x):
     return Tensor(_obj(x), dt)
 
 
-def FloatTensor(data):
-    return tensor(data, dtype=float32)
+def FloatTensor(*data):
+    if data and builtins.all(isinstance(d, _pyint) for d in data):
+        return _mk(tuple(data), 0.0, float32)  # FloatTensor(d0, d1, ...): uninitialised tensor of that shape
+    return tensor(data[0], dtype=float32)
 
 
 def LongTensor(data):
